@@ -239,7 +239,8 @@ def r6_reads_are_whole_and_direct(ctx):
 
 
 def run(ctx):
-    from . import C01
+    from . import C01, C20
+    C20.r14_gauges_released_on_every_exit(ctx)    # a holder of the password always gets a session: failed attempts by others do not use up a limit for good
     C01.r13_no_cancel_and_retry_of_framed_reads(ctx)
     r6_reads_are_whole_and_direct(ctx)
     r5_hash_of_the_configured_password(ctx)
